@@ -10,6 +10,8 @@ CORRESPONDENCES = {
     "algo": {"sub": "algo", "cases": {"quick": 240, "thorough": 4000}, "shards": {"quick": 6, "thorough": 16}},
     # K-spec: spec_util::from_yaml_str on generated YAML text vs build
     "spec": {"sub": "spec", "cases": {"quick": 12000, "thorough": 300000}, "shards": {"quick": 6, "thorough": 16}},
+    # K-proc: the real cambrian binary with scripted objprog children (release files, /proc scan) vs L7/L8/L9
+    "proc": {"sub": "proc", "cases": {"quick": 96, "thorough": 1600}, "shards": {"quick": 8, "thorough": 16}},
     "ctl": {"sub": "ctl", "cases": {"quick": 1500, "thorough": 40000}, "shards": {"quick": 4, "thorough": 16}},
 }
 
@@ -44,7 +46,47 @@ SPEC_TRUST = [
     "serde_yaml text -> tree is outside the model (the model starts at the serde_yaml::Value tree; the harness always goes through the real text path)",
 ]
 
+PROC_TRUST = [
+    "models L7/L8/L9 (Process.lean: report writer, per-evaluation machine, child result schema, CLI decision logic) are hand-written; tied to process.rs, sync_launch.rs and bin/cambrian.rs by correspondence K-proc (the real binary with scripted children)",
+    "OS assumptions: a spawned child leads a fresh process group; killpg(SIGKILL) ends every member of the group; members stay in the group unless they call setsid/setpgid; dropping a tokio Child does not kill it",
+    "clap, the file system, serde_json text parsing, tokio process/time drivers are outside the model; the /proc scan after each run is a test",
+]
+
 PROPS = {
+    "C07": {
+        "modules": ["CambrianModel.Props.C07"],
+        "theorems": ["Cambrian.Props.C07_finished_not_killed", "Cambrian.Props.C07_timeout", "Cambrian.Props.C07_paths",
+                     "Cambrian.Props.C07_accounted", "Cambrian.Props.C07_dropped", "Cambrian.Props.C07_nothing_dropped_after_abort"],
+        "correspondences": ["proc"],
+        "trusted": PROC_TRUST + CTL_TRUST,
+        "assumptions": ["partial: kernel signal delivery / reaping timing cannot be exhibited by the model; the /proc scan (1 s grace, zombies ignored) is a test"],
+    },
+    "C14": {
+        "modules": ["CambrianModel.Props.C14"],
+        "theorems": ["Cambrian.Props.C14_counts", "Cambrian.Props.C14_counts_always", "Cambrian.Props.C14_items",
+                     "Cambrian.Props.C14_file", "Cambrian.Props.C14_meta_probs"],
+        "correspondences": ["proc", "ctl", "algo"],
+        "trusted": PROC_TRUST + CTL_TRUST + ["float law FL-mul-sign (product of a number >= 0 and a positive finite factor is a number >= 0)"],
+        "assumptions": ["partial: 'positive finite mutation scale' is not provable (unclamped product); it is checked on every in-run record and CSV row"],
+    },
+    "C15": {
+        "modules": ["CambrianModel.Props.C15"],
+        "theorems": ["Cambrian.Props.C15_budget_bound", "Cambrian.Props.C15_no_wait_on_nothing", "Cambrian.Props.C15_nospin",
+                     "Cambrian.Props.C15_prob_ok", "Cambrian.Props.C15_enum_other", "Cambrian.Props.C15_variant_init"],
+        "correspondences": ["proc", "ctl", "ops", "algo", "spec", "codec"],
+        "trusted": PROC_TRUST + CTL_TRUST + ["panic-site inventory (tools/expected_sites.json, lint L1): sites not covered by a theorem are trusted with the reasons given in DESIGN.md"],
+        "assumptions": ["each evaluation ends by itself, by its time limit or on the abort request", "float laws FL-mean-fin, FL-mul-sign",
+                        "partial: memory exhaustion, stack depth, third-party code are outside the model"],
+    },
+    "C16": {
+        "modules": ["CambrianModel.Props.C16"],
+        "theorems": ["Cambrian.Props.C16_argv", "Cambrian.Props.C16_argv_last_two", "Cambrian.Props.C16_classify", "Cambrian.Props.C16_accept_iff",
+                     "Cambrian.Props.C16_invalid_before_start", "Cambrian.Props.C16_outdir_refused", "Cambrian.Props.C16_success",
+                     "Cambrian.Props.C16_child_failure"],
+        "correspondences": ["proc"],
+        "trusted": PROC_TRUST,
+        "assumptions": ["partial: the glue (argument parsing, files, spawning) is compared on generated scenarios, not proved"],
+    },
     "C01": {
         "modules": ["CambrianModel.Props.C01"],
         "theorems": ["Cambrian.Props.C01_init", "Cambrian.Props.C01_guess", "Cambrian.Props.C01_cross",
